@@ -1,0 +1,22 @@
+//go:build verif
+
+package mem
+
+import "github.com/DrmagicE/gmqtt/persistence/queue"
+
+// This file is compiled only with `-tags verif`. It lets the verification harness in /verif read the
+// size of a session queue (ground truth for the queued / in-flight statistics); it adds nothing to the normal build.
+
+// VerifLens returns the number of elements in the queue and how many of them carry a packet id
+// (handed out and awaiting PUBACK / PUBREC / PUBCOMP).
+func (q *Queue) VerifLens() (total, inflight int) {
+	q.cond.L.Lock()
+	defer q.cond.L.Unlock()
+	for e := q.l.Front(); e != nil; e = e.Next() {
+		total++
+		if e.Value.(*queue.Elem).ID() != 0 {
+			inflight++
+		}
+	}
+	return total, inflight
+}
